@@ -140,9 +140,9 @@ def run(s):
         from props import C05, C15
         sub = core.SubSession(s, lambda n: n.replace("C05.", "C02.strain_fractions."), lambda n: n.startswith("C05.axial_strains_"))
         sub.__dict__["glue_only"] = True
-        C05.run(sub)
+        sub.run(C05)
         # both tensors are DELIVERED through the writer rules (which quantity a keyword writes): C15's registry and writer-path obligations, registered here as well
-        C15.run(core.SubSession(s, lambda n: n.replace("C15.", "C02.delivery."), lambda n: n in ("C15.registry", "C15.writer_paths")))
+        core.SubSession(s, lambda n: n.replace("C15.", "C02.delivery."), lambda n: n in ("C15.registry", "C15.writer_paths")).run(C15)
     s.min_obligations = 11
 
 
